@@ -63,13 +63,8 @@ func (f *faultStore) CopyObject(ctx context.Context, sb storage.BucketName, sk s
 	return res, nil
 }
 
-func (f *faultStore) AppendObject(ctx context.Context, b storage.BucketName, k storage.ObjectKey, r io.Reader, ci *storage.ChecksumInput, o *storage.AppendObjectOptions) (*storage.AppendObjectResult, error) {
-	res, err := f.Next.AppendObject(ctx, b, k, r, ci, o)
-	if e := f.late(err); e != nil {
-		return nil, e
-	}
-	return res, nil
-}
+// AppendObject is deliberately not decorated: the notification middleware does
+// not wrap it in a transaction, so a late failure has no transaction to undo.
 
 func (f *faultStore) CompleteMultipartUpload(ctx context.Context, b storage.BucketName, k storage.ObjectKey, u storage.UploadId, ci *storage.ChecksumInput, o *storage.CompleteMultipartUploadOptions) (*storage.CompleteMultipartUploadResult, error) {
 	res, err := f.Next.CompleteMultipartUpload(ctx, b, k, u, ci, o)
